@@ -10,6 +10,7 @@ Times are drawn on sample positions k/rate and off them (k+f)/rate with
 f in +-[0.05, 0.45] -- never within 0.05 of a rounding tie (gray zone).
 """
 import math
+import sys
 
 from .engine import Oracle, Violation
 from .gen import H
@@ -24,7 +25,8 @@ ASSUMPTIONS = [
     "for QueryWav with off-grid times only 'whole samples from the nearest start index, length within +-1' is required (the statement is not explicit about how the length is rounded)",
 ]
 
-RATES = [8, 16, 1000, 8000, 16000, 44100]
+_LITTLE = sys.byteorder == "little"
+RATES = [8, 16, 1000, 8000, 16000, 44100, 11025, 22050, 48000, 96000]
 
 
 def config(rng, tier):
@@ -32,9 +34,11 @@ def config(rng, tier):
     return {
         "width": rng.choice([1, 2, 2, 4]),
         "rate": rng.choice(RATES),
-        "nmax": rng.choice([0, 1, 2, 5, 16, 60, 400]),
+        # size class: mostly the property's <= 400 samples, sometimes past typical buffer/chunk thresholds
+        "nmax": rng.choice([0, 1, 2, 5, 16, 60, 400] * 6 + [1500, 5000, 5000, 70000]),
         "offgrid": rng.random() < 0.6,
-        "steps": rng.randrange(1, 13 if deep else 7),
+        "steps": rng.randrange(1, 13 if deep else 7) if rng.random() < 0.85 else rng.randrange(7, 16),
+        "patterns": rng.random() < 0.15,
         "files": rng.random() < 0.6,
     }
 
@@ -43,7 +47,15 @@ def enc_samples(samples, width):
     return b"".join(int(s).to_bytes(width, "little", signed=True) for s in samples)
 
 
+_CAST = {1: "b", 2: "h", 4: "i"}
+
+
 def dec_samples(b, width):
+    """independent little-endian decoder (no struct format strings): a typed
+    memoryview on little-endian hosts, int.from_bytes otherwise / for odd tails"""
+    b = bytes(b)
+    if _LITTLE and width in _CAST and len(b) % width == 0:
+        return memoryview(b).cast(_CAST[width]).tolist()
     return [int.from_bytes(b[i:i + width], "little", signed=True) for i in range(0, len(b), width)]
 
 
@@ -236,8 +248,15 @@ def oracles(cfg):
     return [C16Oracle()]
 
 
-def _samples(rng, width, n):
+_MAGIC = b"RIFF\x24\x00\x00\x00WAVEfmt \x10\x00\x00\x00data\x00\x00\x00\x00LIST"
+
+
+def _samples(rng, width, n, patterns=False):
     lo, hi = -(2 ** (8 * width - 1)), 2 ** (8 * width - 1) - 1
+    if patterns and n >= 8 and rng.random() < 0.5:
+        # audio whose bytes look like RIFF chunk headers
+        raw = (_MAGIC * (n * width // len(_MAGIC) + 1))[rng.randrange(0, 4):][: n * width]
+        return dec_samples(raw, width)
     kind = rng.random()
     out = []
     for _ in range(n):
@@ -263,7 +282,7 @@ def generate(run, rng):
 
     def mk_wav():
         n = rng.randrange(0, cfg["nmax"] + 1)
-        s = _samples(rng, width, n)
+        s = _samples(rng, width, n, cfg.get("patterns", False))
         h = w.new_handle()
         run.do({"op": "Wav", "a": [{"$b": enc_samples(s, width).hex()}, params(width, rate, n)], "out": h})
         return h
@@ -273,8 +292,11 @@ def generate(run, rng):
         if k is None:
             k = rng.randrange(0, n + 1)
         if force_grid or not cfg["offgrid"] or rng.random() < 0.3:
-            return k / rate, True
-        f = rng.choice([-1, 1]) * rng.uniform(0.05, 0.45)
+            t = k / rate
+            if t.is_integer() and rng.random() < 0.3:
+                t = int(t)  # callers pass whole seconds as ints
+            return t, True
+        f = rng.choice([-1, 1]) * (rng.uniform(0.05, 0.45) if rng.random() < 0.85 else 0.5 - 1e-6)
         if k == 0:
             f = abs(f)
         if k == n:
@@ -363,7 +385,7 @@ def generate(run, rng):
                 run.do({"op": "QueryWav", "a": [path], "out": q})
                 run.do({"op": "qwav.duration", "recv": q})
                 run.do({"op": "qwav.getFrames", "recv": q, "a": []})
-                for _ in range(rng.randrange(1, 4)):
+                for _ in range(rng.randrange(1, 6)):
                     a, b, g = span(n)
                     run.do({"op": rng.choice(["qwav.getSamples", "qwav.getSamples", "qwav.getFrames"]),
                             "recv": q, "a": [a, b], "grid": g})
